@@ -64,6 +64,14 @@ type extractor struct {
 	// subst: when this extractor describes an own helper that builds one attribute from its parameters
 	// (attrs = append(attrs, newBARDelayAttr(v))), parameter name -> description of the caller's argument
 	subst map[string]string
+	// syntax: when set, the declaration walked instead of fn's own — a helper that the SSA builder expanded into fn
+	// (its instructions are in fn, at the helper's source positions)
+	syntax *ast.FuncDecl
+	// where the walk of an expanded helper starts: the context of its call in the function it was expanded into
+	initCases, initGuards []string
+	initParent, initList  string
+	fnName                string
+	depth                 int
 }
 
 func newExtractor(p *core.Program, fn *ssa.Function) *extractor {
@@ -199,6 +207,31 @@ func (x *extractor) describeLeaf(v ssa.Value, depth int) string {
 		}
 		// a local decoded in place: var t T; t.Unmarshal(<bytes>); ... t.F
 		if al, ok := root.(*ssa.Alloc); ok {
+			// ... possibly copied as a whole on the way (the result of an expanded decode helper): follow the copies
+			// back to the local that was decoded
+			for i := 0; i < 4; i++ {
+				decoded := false
+				for _, r := range *al.Referrers() {
+					if cl, ok := r.(*ssa.Call); ok && core.Callee(cl) != nil && core.Callee(cl).Name() == "Unmarshal" && core.CallRecv(cl) == ssa.Value(al) {
+						decoded = true
+					}
+				}
+				if decoded {
+					break
+				}
+				sv, ok := aggregateSingleStore(al)
+				if !ok {
+					sv, ok = soleWholeStore(al)
+				}
+				if !ok {
+					break
+				}
+				src := structCopySource(sv, 0)
+				if src == nil {
+					break
+				}
+				al = src
+			}
 			var desc []string
 			for _, r := range *al.Referrers() {
 				if cl, ok := r.(*ssa.Call); ok {
@@ -387,10 +420,16 @@ func (x *extractor) extract() ([]attrRow, []string) {
 	var problems []string
 	node := x.fn.Syntax()
 	fd, ok := node.(*ast.FuncDecl)
+	if x.syntax != nil {
+		fd, ok = x.syntax, true
+	}
 	if !ok || fd.Body == nil {
 		return nil, []string{"no syntax"}
 	}
 	fnName := x.fn.Name()
+	if x.fnName != "" {
+		fnName = x.fnName
+	}
 	type ctx struct {
 		cases  []string
 		guards []string
@@ -543,6 +582,21 @@ func (x *extractor) extract() ([]attrRow, []string) {
 					}
 				}
 			}
+			// attr, ok := helper(...); ...; l = append(l, attr) with an expanded helper that returns the attribute
+			if len(y.Lhs) >= 1 && len(y.Rhs) == 1 {
+				if id, ok := y.Lhs[0].(*ast.Ident); ok {
+					if l, ok := appendedTo[x.info.ObjectOf(id)]; ok {
+						if hc, isCall := ast.Unparen(y.Rhs[0]).(*ast.CallExpr); isCall {
+							if hf := core.CalleeOfExpr(x.info, hc); hf != nil && core.NewFunctions[hf.FullName()] {
+								c2 := c
+								c2.list = l
+								walk(hc, c2)
+								return
+							}
+						}
+					}
+				}
+			}
 			if len(y.Lhs) == 1 && len(y.Rhs) == 1 {
 				if id, ok := y.Lhs[0].(*ast.Ident); ok {
 					if l, ok := appendedTo[x.info.ObjectOf(id)]; ok {
@@ -604,6 +658,23 @@ func (x *extractor) extract() ([]attrRow, []string) {
 			}
 			return
 		case *ast.CallExpr:
+			// a call of a helper that the SSA builder expanded into this function: its body is part of this
+			// function's code, walked in the context of the call
+			if hf := core.CalleeOfExpr(x.info, y); hf != nil && hf.Pkg() != nil && x.p.IsOwn(hf.Pkg()) && core.NewFunctions[hf.FullName()] && x.depth < 4 {
+				if hd := x.p.Decl(hf); hd != nil && hd.Body != nil && hd != fd {
+					x2 := newExtractor(x.p, x.fn)
+					x2.syntax, x2.info = hd, x.p.InfoOf(hf.Pkg())
+					x2.initCases, x2.initGuards, x2.initParent, x2.initList = c.cases, c.guards, c.parent, c.list
+					x2.fnName, x2.depth = fnName, x.depth+1
+					hrows, hprobs := x2.extract()
+					rows = append(rows, hrows...)
+					problems = append(problems, hprobs...)
+					for _, a := range y.Args {
+						walk(a, c)
+					}
+					return
+				}
+			}
 			// append(list, nl.Attr{...})
 			if id, ok := y.Fun.(*ast.Ident); ok && id.Name == "append" && len(y.Args) >= 2 {
 				c2 := c
@@ -617,6 +688,11 @@ func (x *extractor) extract() ([]attrRow, []string) {
 							if hs := x.p.SSAFn(hf); hs != nil && hs.Syntax() != nil && hs != x.fn {
 								if sig := hf.Type().(*types.Signature); sig.Results().Len() == 1 && (x.isNLType(sig.Results().At(0).Type(), "Attr")) {
 									x2 := newExtractor(x.p, hs)
+									if hd, isDecl := hs.Syntax().(*ast.FuncDecl); isDecl && x.callAt(hc) == nil && core.NewFunctions[hf.FullName()] {
+										// the helper was expanded into this function: read its syntax against our own SSA form
+										x2 = newExtractor(x.p, x.fn)
+										x2.syntax, x2.info = hd, x.p.InfoOf(hf.Pkg())
+									}
 									x2.subst = map[string]string{}
 									for i := 0; i < sig.Params().Len() && i < len(hc.Args); i++ {
 										// describe the caller's argument through its SSA value at the call
@@ -652,6 +728,9 @@ func (x *extractor) extract() ([]attrRow, []string) {
 		case *ast.CompositeLit:
 			tv, ok := x.info.Types[y]
 			if ok && (x.isNLType(tv.Type, "Attr") || isPtrToNL(tv.Type, x, "Attr")) {
+				if len(y.Elts) == 0 && x.syntax != nil {
+					return // the zero value an expanded helper returns next to ok == false / an error
+				}
 				row := attrRow{Fn: fnName, Parent: c.parent, List: c.list, Cases: strings.Join(c.cases, "/"), Guards: strings.Join(c.guards, "&"), pos: y.Pos()}
 				var valueExpr ast.Expr
 				for _, el := range y.Elts {
@@ -697,7 +776,7 @@ func (x *extractor) extract() ([]attrRow, []string) {
 			return false
 		})
 	}
-	walk(fd.Body, ctx{})
+	walk(fd.Body, ctx{cases: x.initCases, guards: x.initGuards, parent: x.initParent, list: x.initList})
 	return rows, problems
 }
 
@@ -861,6 +940,9 @@ func (x *extractor) evalSeeded(v ssa.Value, at *ssa.BasicBlock) core.Interval {
 // definingCall: the object is assigned from a call of an own builder (v, err := g.newPdi(i)).
 func (x *extractor) definingCall(obj types.Object) string {
 	fd := x.fn.Syntax().(*ast.FuncDecl)
+	if x.syntax != nil {
+		fd = x.syntax
+	}
 	res := ""
 	ast.Inspect(fd.Body, func(n ast.Node) bool {
 		as, ok := n.(*ast.AssignStmt)
@@ -1014,14 +1096,30 @@ func builderFns(p *core.Program) []*ssa.Function {
 		}
 		has := false
 		x := newExtractor(p, fn)
-		ast.Inspect(fn.Syntax(), func(n ast.Node) bool {
-			if cl, ok := n.(*ast.CompositeLit); ok {
-				if tv, ok := x.info.Types[cl]; ok && x.isNLType(tv.Type, "Attr") {
-					has = true
+		var look func(node ast.Node, info *types.Info, depth int)
+		look = func(node ast.Node, info *types.Info, depth int) {
+			ast.Inspect(node, func(n ast.Node) bool {
+				switch y := n.(type) {
+				case *ast.CompositeLit:
+					if tv, ok := info.Types[y]; ok && x.isNLType(tv.Type, "Attr") {
+						has = true
+					}
+					// elements of an nl.AttrList literal are untyped-literal Attrs
+					if tv, ok := info.Types[y]; ok && x.isNLType(tv.Type, "AttrList") && len(y.Elts) > 0 {
+						has = true
+					}
+				case *ast.CallExpr:
+					// the attributes may be built by a helper that was expanded into this function
+					if hf := core.CalleeOfExpr(info, y); hf != nil && hf.Pkg() != nil && core.NewFunctions[hf.FullName()] && depth < 4 {
+						if hd := p.Decl(hf); hd != nil && hd.Body != nil {
+							look(hd.Body, p.InfoOf(hf.Pkg()), depth+1)
+						}
+					}
 				}
-			}
-			return !has
-		})
+				return !has
+			})
+		}
+		look(fn.Syntax(), x.info, 0)
 		if has {
 			out = append(out, fn)
 		}
@@ -1082,4 +1180,57 @@ func (x *extractor) callAt(call *ast.CallExpr) *ssa.Call {
 		}
 	})
 	return out
+}
+
+// structCopySource: v is a load of a local (or a phi of loads of one and the same local): the local copied from.
+func structCopySource(v ssa.Value, depth int) *ssa.Alloc {
+	if depth > 4 {
+		return nil
+	}
+	switch x := v.(type) {
+	case *ssa.UnOp:
+		if x.Op == token.MUL {
+			if a, ok := x.X.(*ssa.Alloc); ok {
+				return a
+			}
+		}
+	case *ssa.Phi:
+		var src *ssa.Alloc
+		for _, e := range x.Edges {
+			a := structCopySource(e, depth+1)
+			if a == nil || (src != nil && a != src) {
+				return nil
+			}
+			src = a
+		}
+		return src
+	}
+	return nil
+}
+
+// soleWholeStore: the local is written by exactly one whole-value store in its function and never through a field
+// address (its address may be taken and kept: what is read later through that pointer is still this value).
+func soleWholeStore(a *ssa.Alloc) (ssa.Value, bool) {
+	var val ssa.Value
+	n := 0
+	for _, r := range *a.Referrers() {
+		switch y := r.(type) {
+		case *ssa.Store:
+			if y.Addr == ssa.Value(a) {
+				n++
+				val = y.Val
+			}
+		case *ssa.FieldAddr:
+			for _, u := range *y.Referrers() {
+				if st, ok := u.(*ssa.Store); ok && st.Addr == ssa.Value(y) {
+					return nil, false
+				}
+				if cl, ok := u.(ssa.CallInstruction); ok {
+					_ = cl
+					return nil, false
+				}
+			}
+		}
+	}
+	return val, n == 1
 }
